@@ -92,7 +92,7 @@ def chk_roundtrip(items, salt=0):
     st, sc = attempt(Script.parse, buf)
     if st != "ok":
         return "violation", [V("%s:Script.parse:%s:valid-refused" % (P, cls), "parse(serialize(%s)) raised %s" % (desc, sc))]
-    if sc.cmds != cmds or not (sc == Script(list(cmds))) or buf.tell() != len(ser):
+    if list(sc.cmds) != list(cmds) or not (sc == Script(list(cmds))) or buf.tell() != len(ser):
         return "violation", [V("%s:Script.parse:%s:roundtrip" % (P, cls), "parse(serialize(%s)) differs / consumed %d of %d" % (
             desc, buf.tell(), len(ser)))]
     return "roundtrip-ok", []
@@ -125,7 +125,7 @@ def chk_parse_bytes(b, origin):
         return "violation", [V("%s:Script.parse:%s:accepted" % (P, cls),
                                "parse accepted %s (%s) as %r although the bytes end early / overrun the declared length" % (
                                    b[:24].hex(), origin, [c.hex() if isinstance(c, bytes) else c for c in sc.cmds][:4]))]
-    if sc.cmds != rcmds or buf.tell() != rpos:
+    if list(sc.cmds) != list(rcmds) or buf.tell() != rpos:
         return "violation", [V(P + ":Script.parse:accepted:wrong-commands", "parse(%s) cmds/consumed differ from reference" % b[:24].hex(),
                                [c.hex() if isinstance(c, bytes) else c for c in sc.cmds][:4],
                                [c.hex() if isinstance(c, bytes) else c for c in rcmds][:4])]
